@@ -9,3 +9,23 @@ CHECKS = [
 ]
 _TODO = "check not built yet in this session (planned, see DESIGN.md section 4)"
 NOT_APPLICABLE = [{"property_id": f"C{n:02d}", "reason": _TODO} for n in range(2, 21)]
+
+CHECKS += [
+    {"id": "C05", "design": "DESIGN.md#c05-physical-projection",
+     "technique": "runtime contracts on calc_proj_physical(_with_var) with reference oracles: feasibility, variational inequality, independent SDP (Clarabel) and independent reference Dykstra, iteration-history trace checker",
+     "text": "Every execution of the object- and variable-level physical projection (driven with the iteration history on, 4 types x S1,S3,S2 x both flags x both orders x eps 1e-6..1e-14, near/far/physical/boundary inputs) is judged for termination by criterion, feasibility and optimality to the accuracy sqrt(eps) implied by the stopping threshold (nearest point certified three independent ways), fixed points, and consistency of the recorded p,q,x,y,error_value trace with the Dykstra recurrences and with reference projections; cross-form agreement (orders, object/variable/closure forms) by the driver.",
+     "note": _NOTE + "; cvxpy+Clarabel as oracle solver only; accuracy claims only to the sigma=sqrt(eps) scaled tolerances (30 sigma pass, 3000 sigma violation)"},
+    {"id": "C09", "design": "DESIGN.md#c09-linear-estimation",
+     "technique": "runtime contracts on LinearEstimator.calc_estimate(_sequence) and result accessors: normal-equation residual, exact-data recovery, bitwise sequence/one-at-a-time and sample-count independence",
+     "text": "Every execution of the linear estimator on informationally complete tester sets (4 tomography types x both flags x S1,S3,S2; interior/boundary/pure truths; exact, sampled, non-normalised and negative data) is judged by a post-condition: least-squares normal equations with A,b read from the tomography, recovery of the true object from exact data (tolerance scaled by cond(A)^2), bitwise equality of sequence vs single estimates and under replaced sample counts, and the library's own consistency check. Behaviour on non-IC tester sets is recorded, not judged (the statement quantifies over IC sets only).",
+     "note": _NOTE + "; executions with cond(A) > 1e4 are not judged"},
+    {"id": "C14", "design": "DESIGN.md#c14-sampled-data-and-empirical-distributions",
+     "technique": "runtime contracts on the data generators and empirical-distribution functions (integer-count and prefix oracles, inversion-interval oracle with recorded uniform numbers), history checker for seed reproducibility under interleaved random draws, adversarial generator stubs, fixed-bound distribution test",
+     "text": "Every execution of the data-generation / empirical-distribution entry points (data_generator, Experiment, MultinomialDistribution sampling, the four tomography classes) is judged: data in range with non-zero probability, empirical distributions = integer counts / n of exactly the requested prefix, cumulative consistency; seeded calls reproduced bitwise after arbitrary interleavings of other random draws; shared generators advance; adversarial uniform streams at every cumulative boundary +-1ulp; 200k-draw distribution agreement with an astronomically safe three-zone bound.",
+     "note": _NOTE + "; statistical oracles use fixed bounds (|z|>=12, chi-square twice the 1e-12 quantile) so that chance firing is negligible; side effects on numpy's global state are recorded, not judged"},
+    {"id": "C16", "design": "DESIGN.md#c16-probability-bookkeeping",
+     "technique": "runtime contracts on index_util, MultinomialDistribution (constructor, indexing, marginalize, conditionalize), StateEnsemble.state, validate_prob_dist, ProbDist indexing against explicit-loop reference; exhaustive enumeration of index maps",
+     "text": "Index maps are enumerated exhaustively (780 shapes, 54240 pairs) against numpy's row-major definition; every constructor / marginalize / conditionalize execution is judged against explicit-loop sums, renormalised slices and joint = marginal x conditional cell by cell (all ordered subsets and assignments in the thorough tier); ensembles from MProcess o State and MProcess o StateEnsemble (different outcome counts per step, zero-probability branches) are checked against Kraus-operator histories of the reference model.",
+     "note": _NOTE},
+]
+NOT_APPLICABLE = [x for x in NOT_APPLICABLE if x["property_id"] not in {c["id"] for c in CHECKS}]
